@@ -3,7 +3,12 @@ package main
 import (
 	"fmt"
 	"go/ast"
+	"go/parser"
 	"go/token"
+	"os"
+	"path/filepath"
+	"sort"
+	"strconv"
 	"strings"
 )
 
@@ -11,24 +16,1501 @@ import (
 // (serf/serf.go: reap, handleReap, handleNodeLeaveIntent, handlePrune, handleNodeJoin,
 // handleNodeLeave, removeOldMember, upsertIntent, handleNodeJoinIntent; serf/delegate.go:
 // LocalState, MergeRemoteState, NotifyMsg) as canonical one-line strings, ordered
-// statement lists and a few derived booleans / numbers.  SerfProofs/Lemmas/NodeShapes.lean
-// states what each must be and what that means for the hand-written model (Model/Node.lean).
+// statement lists, a few derived booleans / numbers and, for removeOldMember, a SEMANTIC
+// summary (search predicate, first match, removal statements).
+// SerfProofs/Lemmas/NodeShapes.lean states what each must be and what that means for the
+// hand-written model (Model/Node.lean).
+//
+// Every function is NORMALISED on a private copy before any walker looks at it (nsNormalize),
+// so that a behaviour-preserving respelling produces the same text:
+//   1. constants: function-local `const` declarations and package constants of serf/ whose
+//      value is a literal (untyped or of a builtin type; iota enums and constants of a named
+//      type such as MemberStatus stay symbolic) are replaced by their value;
+//   2. single-assignment pure locals (`n := len(old)`, `last := n - 1`) are substituted into
+//      their uses (only when nothing the expression reads can change in between);
+//   3. `a > b` is `b < a`, `a >= b` is `b <= a`, negations are pushed inward, `x += 1` is `x++`,
+//      redundant parentheses go;
+//   4. no `else` after a branch that ends in return/continue/break/panic, no statement after
+//      one that never completes; `if c { a; b; return x }; return y` at the end of a list is the
+//      guard clause `if !c { return y }; a; b; return x`; a trailing
+//      `if c { X }` of a loop body is the guard clause `if !c { continue }; X`; other
+//      `if !c { A } else { B }` become `if c { B } else { A }`;
+//   5. `for i := range xs { … xs[i] … }` is `for _, e := range xs { … e … }`;
+//   6. alpha-renaming: receiver `recv`, parameters `p0,p1,…`, named results `r0,…`, every
+//      other variable `v0,v1,…` in order of first definition (selector fields, struct-literal
+//      keys, labels, package names and anything not defined in the function are left alone);
+//   7. operands of `==`/`!=` (constant to the right, else textual) and of `x == K || x == L`
+//      chains, and the labels of one `case`, are put in textual order.
 // A shape the walkers do not understand is an error (nsFail), never a silent default.
 
 type nsErr struct{ msg string }
 
 func nsFail(format string, a ...interface{}) { panic(nsErr{fmt.Sprintf(format, a...)}) }
 
-// ---- generic helpers -------------------------------------------------------------------
+// ---- copy ------------------------------------------------------------------------------
 
-// nsFn finds method recv.name (function name when recv is empty) or fails.
+// nsPkgConsts: literal-valued package constants of serf/ that are resolved to their value.
+var nsPkgConsts = map[string]ast.Expr{}
+
+var nsBuiltinTypes = map[string]bool{"int": true, "int8": true, "int16": true, "int32": true, "int64": true,
+	"uint": true, "uint8": true, "uint16": true, "uint32": true, "uint64": true, "uintptr": true,
+	"float32": true, "float64": true, "string": true, "byte": true, "rune": true}
+
+// nsLitValue: e is a literal (possibly negated / parenthesised).
+func nsLitValue(e ast.Expr) bool {
+	switch x := e.(type) {
+	case *ast.BasicLit:
+		return true
+	case *ast.ParenExpr:
+		return nsLitValue(x.X)
+	case *ast.UnaryExpr:
+		return (x.Op == token.SUB || x.Op == token.ADD) && nsLitValue(x.X)
+	}
+	return false
+}
+
+// nsValueConst: the spec declares name i with a literal value and without a named type.
+func nsValueConst(vs *ast.ValueSpec, i int) bool {
+	if i >= len(vs.Values) || !nsLitValue(vs.Values[i]) {
+		return false
+	}
+	if vs.Type == nil {
+		return true
+	}
+	id, ok := vs.Type.(*ast.Ident)
+	return ok && nsBuiltinTypes[id.Name]
+}
+
+func nsLoadConsts(dir string) {
+	nsPkgConsts = map[string]ast.Expr{}
+	ents, err := os.ReadDir(dir)
+	if err != nil {
+		nsFail("cannot read %s: %v", dir, err)
+	}
+	for _, e := range ents {
+		n := e.Name()
+		if !strings.HasSuffix(n, ".go") || strings.HasSuffix(n, "_test.go") {
+			continue
+		}
+		_, f, err := parseFile(filepath.Join(dir, n))
+		if err != nil {
+			nsFail("cannot parse %s: %v", n, err)
+		}
+		for _, d := range f.Decls {
+			gd, ok := d.(*ast.GenDecl)
+			if !ok || gd.Tok != token.CONST {
+				continue
+			}
+			for _, sp := range gd.Specs {
+				vs := sp.(*ast.ValueSpec)
+				for i, id := range vs.Names {
+					if nsValueConst(vs, i) {
+						nsPkgConsts[id.Name] = vs.Values[i]
+					}
+				}
+			}
+		}
+	}
+}
+
+// nsCopyFn: a private deep copy (print + re-parse; the parser's object resolution then links
+// every identifier DEFINED in the function to its definition, and nothing else).
+func nsCopyFn(fd *ast.FuncDecl) *ast.FuncDecl {
+	c := *fd
+	c.Doc = nil
+	fset := token.NewFileSet()
+	f, err := parser.ParseFile(fset, "", "package p\n\n"+exprString(&c)+"\n", 0)
+	if err != nil {
+		nsFail("%s: cannot re-parse a copy: %v", fd.Name.Name, err)
+	}
+	for _, d := range f.Decls {
+		if cp, ok := d.(*ast.FuncDecl); ok && cp.Body != nil {
+			if nsFlat(cp.Body) != nsFlat(fd.Body) {
+				nsFail("%s: copy differs from the original", fd.Name.Name)
+			}
+			return cp
+		}
+	}
+	nsFail("%s: copy has no function", fd.Name.Name)
+	return nil
+}
+
+// nsFn finds method recv.name (function name when recv is empty) or fails; the result is a
+// NORMALISED private copy.
 func nsFn(f *ast.File, recv, name string) *ast.FuncDecl {
 	fd := findFunc(f, recv, name)
 	if fd == nil || fd.Body == nil {
 		nsFail("%s.%s not found", recv, name)
 	}
-	return fd
+	cp := nsCopyFn(fd)
+	nsNormalize(cp)
+	return cp
 }
+
+func nsNormalize(fd *ast.FuncDecl) {
+	nsResolveConsts(fd)
+	nsSimplify(fd)
+	nsInlineLocals(fd)
+	nsSimplify(fd)
+	nsApply(fd, nsCanonExpr, nil)
+	nsCanonStmts(fd)
+	nsCanonRanges(fd)
+	nsSimplify(fd)
+	nsAlpha(fd)
+	nsApply(fd, nsSortOperands, nil)
+}
+
+// ---- expression rewriter ---------------------------------------------------------------
+
+// nsRw applies f bottom-up to every VALUE expression (not to selector field names, struct
+// literal keys, labels or types) and `top` to the expressions that fill a whole slot
+// (statement operands, call arguments, indices).
+type nsRw struct {
+	f   func(ast.Expr) ast.Expr
+	top func(ast.Expr) ast.Expr
+}
+
+func nsApply(fd *ast.FuncDecl, f, top func(ast.Expr) ast.Expr) {
+	r := &nsRw{f, top}
+	r.stmt(fd.Body)
+}
+
+func (r *nsRw) t(e ast.Expr) ast.Expr {
+	e = r.expr(e)
+	if e != nil && r.top != nil {
+		e = r.top(e)
+	}
+	return e
+}
+
+func nsKeysAreValues(t ast.Expr) bool {
+	switch t.(type) {
+	case *ast.MapType, *ast.ArrayType:
+		return true
+	}
+	return false
+}
+
+func (r *nsRw) expr(e ast.Expr) ast.Expr {
+	if e == nil {
+		return nil
+	}
+	switch x := e.(type) {
+	case *ast.Ident, *ast.BasicLit:
+	case *ast.ParenExpr:
+		x.X = r.expr(x.X)
+	case *ast.UnaryExpr:
+		x.X = r.expr(x.X)
+	case *ast.StarExpr:
+		x.X = r.expr(x.X)
+	case *ast.BinaryExpr:
+		x.X, x.Y = r.expr(x.X), r.expr(x.Y)
+	case *ast.CallExpr:
+		x.Fun = r.expr(x.Fun)
+		for i := range x.Args {
+			x.Args[i] = r.t(x.Args[i])
+		}
+	case *ast.IndexExpr:
+		x.X, x.Index = r.expr(x.X), r.t(x.Index)
+	case *ast.SliceExpr:
+		x.X = r.expr(x.X)
+		if x.Low != nil {
+			x.Low = r.t(x.Low)
+		}
+		if x.High != nil {
+			x.High = r.t(x.High)
+		}
+		if x.Max != nil {
+			x.Max = r.t(x.Max)
+		}
+	case *ast.SelectorExpr:
+		x.X = r.expr(x.X)
+	case *ast.CompositeLit:
+		kv := nsKeysAreValues(x.Type)
+		for i, el := range x.Elts {
+			if p, ok := el.(*ast.KeyValueExpr); ok {
+				if _, isID := p.Key.(*ast.Ident); !isID || kv {
+					p.Key = r.t(p.Key)
+				}
+				p.Value = r.t(p.Value)
+			} else {
+				x.Elts[i] = r.t(el)
+			}
+		}
+	case *ast.KeyValueExpr:
+		x.Value = r.t(x.Value)
+	case *ast.TypeAssertExpr:
+		x.X = r.expr(x.X)
+	case *ast.FuncLit:
+		r.stmt(x.Body)
+	case *ast.ArrayType, *ast.MapType, *ast.StructType, *ast.InterfaceType, *ast.ChanType, *ast.FuncType, *ast.Ellipsis:
+		return e
+	default:
+		nsFail("normalisation: unsupported expression kind %T", e)
+	}
+	return r.f(e)
+}
+
+func (r *nsRw) list(l []ast.Expr) {
+	for i := range l {
+		l[i] = r.t(l[i])
+	}
+}
+
+func (r *nsRw) call(c *ast.CallExpr) *ast.CallExpr {
+	if n, ok := r.expr(c).(*ast.CallExpr); ok {
+		return n
+	}
+	nsFail("normalisation: a go/defer call was rewritten into something else")
+	return nil
+}
+
+func (r *nsRw) stmt(s ast.Stmt) {
+	switch x := s.(type) {
+	case nil:
+	case *ast.ExprStmt:
+		x.X = r.t(x.X)
+	case *ast.AssignStmt:
+		r.list(x.Lhs)
+		r.list(x.Rhs)
+	case *ast.IncDecStmt:
+		x.X = r.t(x.X)
+	case *ast.ReturnStmt:
+		r.list(x.Results)
+	case *ast.IfStmt:
+		r.stmt(x.Init)
+		x.Cond = r.t(x.Cond)
+		r.stmt(x.Body)
+		r.stmt(x.Else)
+	case *ast.BlockStmt:
+		if x != nil {
+			for _, st := range x.List {
+				r.stmt(st)
+			}
+		}
+	case *ast.ForStmt:
+		r.stmt(x.Init)
+		if x.Cond != nil {
+			x.Cond = r.t(x.Cond)
+		}
+		r.stmt(x.Post)
+		r.stmt(x.Body)
+	case *ast.RangeStmt:
+		x.Key, x.Value = r.expr(x.Key), r.expr(x.Value)
+		x.X = r.t(x.X)
+		r.stmt(x.Body)
+	case *ast.DeclStmt:
+		if gd, ok := x.Decl.(*ast.GenDecl); ok {
+			for _, sp := range gd.Specs {
+				if vs, ok := sp.(*ast.ValueSpec); ok {
+					r.list(vs.Values)
+				}
+			}
+		}
+	case *ast.DeferStmt:
+		x.Call = r.call(x.Call)
+	case *ast.GoStmt:
+		x.Call = r.call(x.Call)
+	case *ast.SwitchStmt:
+		r.stmt(x.Init)
+		if x.Tag != nil {
+			x.Tag = r.t(x.Tag)
+		}
+		r.stmt(x.Body)
+	case *ast.TypeSwitchStmt:
+		r.stmt(x.Init)
+		r.stmt(x.Assign)
+		r.stmt(x.Body)
+	case *ast.CaseClause:
+		r.list(x.List)
+		for _, st := range x.Body {
+			r.stmt(st)
+		}
+	case *ast.SelectStmt:
+		r.stmt(x.Body)
+	case *ast.CommClause:
+		r.stmt(x.Comm)
+		for _, st := range x.Body {
+			r.stmt(st)
+		}
+	case *ast.SendStmt:
+		x.Chan, x.Value = r.t(x.Chan), r.t(x.Value)
+	case *ast.LabeledStmt:
+		r.stmt(x.Stmt)
+	case *ast.BranchStmt, *ast.EmptyStmt:
+	default:
+		nsFail("normalisation: unsupported statement kind %T", s)
+	}
+}
+
+// nsEachList maps every statement list (blocks, case and comm clause bodies, closures),
+// innermost first.
+func nsEachList(root ast.Node, f func(owner ast.Node, list []ast.Stmt) []ast.Stmt) {
+	var owners []ast.Node
+	ast.Inspect(root, func(n ast.Node) bool {
+		switch n.(type) {
+		case *ast.BlockStmt, *ast.CaseClause, *ast.CommClause:
+			owners = append(owners, n)
+		}
+		return true
+	})
+	for i := len(owners) - 1; i >= 0; i-- {
+		switch x := owners[i].(type) {
+		case *ast.BlockStmt:
+			x.List = f(x, x.List)
+		case *ast.CaseClause:
+			x.Body = f(x, x.Body)
+		case *ast.CommClause:
+			x.Body = f(x, x.Body)
+		}
+	}
+}
+
+// nsEachStmt maps every statement, those in Init/Post slots included (f returns the
+// replacement; nil keeps the statement).
+func nsEachStmt(root ast.Node, f func(ast.Stmt) ast.Stmt) {
+	rep := func(s ast.Stmt) ast.Stmt {
+		if s == nil {
+			return nil
+		}
+		if n := f(s); n != nil {
+			return n
+		}
+		return s
+	}
+	ast.Inspect(root, func(n ast.Node) bool {
+		switch x := n.(type) {
+		case *ast.IfStmt:
+			x.Init = rep(x.Init)
+		case *ast.ForStmt:
+			x.Init, x.Post = rep(x.Init), rep(x.Post)
+		case *ast.SwitchStmt:
+			x.Init = rep(x.Init)
+		}
+		return true
+	})
+	nsEachList(root, func(_ ast.Node, list []ast.Stmt) []ast.Stmt {
+		for i := range list {
+			list[i] = rep(list[i])
+		}
+		return list
+	})
+}
+
+// ---- small expression helpers ----------------------------------------------------------
+
+func nsStrip(e ast.Expr) ast.Expr {
+	for {
+		p, ok := e.(*ast.ParenExpr)
+		if !ok {
+			return e
+		}
+		e = p.X
+	}
+}
+
+func nsObj(e ast.Expr) *ast.Object {
+	if id, ok := nsStrip(e).(*ast.Ident); ok && id.Name != "_" {
+		return id.Obj
+	}
+	return nil
+}
+
+// nsBuiltinPure: len(x) / cap(x) of the builtin (no local of that name).
+func nsBuiltinPure(c *ast.CallExpr) bool {
+	id, ok := c.Fun.(*ast.Ident)
+	return ok && id.Obj == nil && (id.Name == "len" || id.Name == "cap") && len(c.Args) == 1
+}
+
+// nsCallFree: no call other than len/cap, no closure, no channel receive.
+func nsCallFree(e ast.Expr) bool {
+	free := true
+	ast.Inspect(e, func(n ast.Node) bool {
+		switch x := n.(type) {
+		case *ast.CallExpr:
+			if !nsBuiltinPure(x) {
+				free = false
+			}
+		case *ast.FuncLit:
+			free = false
+		case *ast.UnaryExpr:
+			if x.Op == token.ARROW {
+				free = false
+			}
+		}
+		return free
+	})
+	return free
+}
+
+// nsPure: identifiers, selectors, literals, len/cap, arithmetic / comparison on these.
+func nsPure(e ast.Expr) bool {
+	switch x := e.(type) {
+	case *ast.Ident, *ast.BasicLit:
+		return true
+	case *ast.ParenExpr:
+		return nsPure(x.X)
+	case *ast.SelectorExpr:
+		return nsPure(x.X)
+	case *ast.StarExpr:
+		return nsPure(x.X)
+	case *ast.BinaryExpr:
+		return nsPure(x.X) && nsPure(x.Y)
+	case *ast.UnaryExpr:
+		return (x.Op == token.SUB || x.Op == token.ADD || x.Op == token.NOT || x.Op == token.XOR) && nsPure(x.X)
+	case *ast.CallExpr:
+		return nsBuiltinPure(x) && nsPure(x.Args[0])
+	}
+	return false
+}
+
+// nsClone copies a pure expression (identifiers keep their object).
+func nsClone(e ast.Expr) ast.Expr {
+	switch x := e.(type) {
+	case *ast.Ident:
+		c := *x
+		return &c
+	case *ast.BasicLit:
+		c := *x
+		return &c
+	case *ast.ParenExpr:
+		return &ast.ParenExpr{X: nsClone(x.X)}
+	case *ast.SelectorExpr:
+		s := *x.Sel
+		return &ast.SelectorExpr{X: nsClone(x.X), Sel: &s}
+	case *ast.StarExpr:
+		return &ast.StarExpr{X: nsClone(x.X)}
+	case *ast.BinaryExpr:
+		return &ast.BinaryExpr{X: nsClone(x.X), Op: x.Op, Y: nsClone(x.Y)}
+	case *ast.UnaryExpr:
+		return &ast.UnaryExpr{Op: x.Op, X: nsClone(x.X)}
+	case *ast.CallExpr:
+		c := &ast.CallExpr{Fun: nsClone(x.Fun)}
+		for _, a := range x.Args {
+			c.Args = append(c.Args, nsClone(a))
+		}
+		return c
+	}
+	nsFail("normalisation: cannot copy expression kind %T", e)
+	return nil
+}
+
+func nsAtomic(e ast.Expr) bool {
+	switch e.(type) {
+	case *ast.Ident, *ast.BasicLit, *ast.SelectorExpr, *ast.CallExpr, *ast.IndexExpr, *ast.SliceExpr, *ast.TypeAssertExpr, *ast.ParenExpr:
+		return true
+	}
+	return false
+}
+
+// nsWrap parenthesises e if it is not atomic.
+func nsWrap(e ast.Expr) ast.Expr {
+	if nsAtomic(e) {
+		return e
+	}
+	return &ast.ParenExpr{X: e}
+}
+
+// ---- 1. constants ----------------------------------------------------------------------
+
+func nsResolveConsts(fd *ast.FuncDecl) {
+	local := map[*ast.Object]ast.Expr{}
+	nsEachList(fd.Body, func(_ ast.Node, list []ast.Stmt) []ast.Stmt {
+		out := list[:0:0]
+		for _, s := range list {
+			var gd *ast.GenDecl
+			if ds, ok := s.(*ast.DeclStmt); ok {
+				gd, _ = ds.Decl.(*ast.GenDecl)
+			}
+			if gd == nil || gd.Tok != token.CONST {
+				out = append(out, s)
+				continue
+			}
+			all := true
+			for _, sp := range gd.Specs {
+				vs := sp.(*ast.ValueSpec)
+				for i := range vs.Names {
+					all = all && nsValueConst(vs, i)
+				}
+			}
+			if !all {
+				out = append(out, s)
+				continue
+			}
+			for _, sp := range gd.Specs {
+				vs := sp.(*ast.ValueSpec)
+				for i, id := range vs.Names {
+					if id.Obj != nil {
+						local[id.Obj] = vs.Values[i]
+					}
+				}
+			}
+		}
+		return out
+	})
+	nsApply(fd, func(e ast.Expr) ast.Expr {
+		id, ok := e.(*ast.Ident)
+		if !ok {
+			return e
+		}
+		if id.Obj != nil {
+			if v, ok := local[id.Obj]; ok {
+				return nsWrap(nsClone(v))
+			}
+			return e
+		}
+		if v, ok := nsPkgConsts[id.Name]; ok {
+			return nsWrap(nsClone(v))
+		}
+		return e
+	}, nil)
+}
+
+// ---- 3a. parentheses, literal spelling, `x += 1` ---------------------------------------
+
+// nsUnOperand: drop the parentheses of an operand of a binary expression of precedence p when
+// the parse is the same without them.
+func nsUnOperand(e ast.Expr, p int, right bool) ast.Expr {
+	par, ok := e.(*ast.ParenExpr)
+	if !ok {
+		return e
+	}
+	in := nsStrip(par)
+	switch x := in.(type) {
+	case *ast.BinaryExpr:
+		q := x.Op.Precedence()
+		if q > p || (q == p && !right) {
+			return in
+		}
+		return &ast.ParenExpr{X: in}
+	case *ast.CompositeLit, *ast.FuncLit:
+		return &ast.ParenExpr{X: in}
+	}
+	return in
+}
+
+func nsUnAtomic(e ast.Expr) ast.Expr {
+	if in := nsStrip(e); in != e {
+		if _, isPar := in.(*ast.ParenExpr); !isPar && nsAtomic(in) {
+			return in
+		}
+		return &ast.ParenExpr{X: in}
+	}
+	return e
+}
+
+func nsSimpExpr(e ast.Expr) ast.Expr {
+	switch x := e.(type) {
+	case *ast.BasicLit:
+		if x.Kind == token.INT {
+			if v, err := strconv.ParseUint(x.Value, 0, 64); err == nil {
+				x.Value = strconv.FormatUint(v, 10)
+			}
+		}
+	case *ast.BinaryExpr:
+		p := x.Op.Precedence()
+		x.X, x.Y = nsUnOperand(x.X, p, false), nsUnOperand(x.Y, p, true)
+	case *ast.UnaryExpr:
+		x.X = nsUnAtomic(x.X)
+	case *ast.StarExpr:
+		x.X = nsUnAtomic(x.X)
+	case *ast.SelectorExpr:
+		x.X = nsUnAtomic(x.X)
+	case *ast.IndexExpr:
+		x.X = nsUnAtomic(x.X)
+	case *ast.SliceExpr:
+		x.X = nsUnAtomic(x.X)
+	case *ast.CallExpr:
+		x.Fun = nsUnAtomic(x.Fun)
+	}
+	return e
+}
+
+func nsIsOne(e ast.Expr) bool {
+	b, ok := nsStrip(e).(*ast.BasicLit)
+	return ok && b.Kind == token.INT && b.Value == "1"
+}
+
+func nsSimpStmt(s ast.Stmt) ast.Stmt {
+	switch x := s.(type) {
+	case *ast.AssignStmt:
+		if len(x.Lhs) != 1 || len(x.Rhs) != 1 {
+			return nil
+		}
+		tok := token.ILLEGAL
+		switch {
+		case x.Tok == token.ADD_ASSIGN && nsIsOne(x.Rhs[0]):
+			tok = token.INC
+		case x.Tok == token.SUB_ASSIGN && nsIsOne(x.Rhs[0]):
+			tok = token.DEC
+		case x.Tok == token.ASSIGN:
+			b, ok := nsStrip(x.Rhs[0]).(*ast.BinaryExpr)
+			l := nsFlat(x.Lhs[0])
+			if !ok || !nsCallFree(x.Lhs[0]) {
+				break
+			}
+			switch {
+			case b.Op == token.ADD && nsIsOne(b.Y) && nsFlat(b.X) == l, b.Op == token.ADD && nsIsOne(b.X) && nsFlat(b.Y) == l:
+				tok = token.INC
+			case b.Op == token.SUB && nsIsOne(b.Y) && nsFlat(b.X) == l:
+				tok = token.DEC
+			}
+		}
+		if tok != token.ILLEGAL {
+			return &ast.IncDecStmt{X: x.Lhs[0], TokPos: x.TokPos, Tok: tok}
+		}
+	case *ast.DeclStmt: // `var x = e`  is  `x := e`
+		gd, ok := x.Decl.(*ast.GenDecl)
+		if !ok || gd.Tok != token.VAR || len(gd.Specs) != 1 {
+			return nil
+		}
+		vs := gd.Specs[0].(*ast.ValueSpec)
+		if vs.Type != nil || len(vs.Names) != 1 || len(vs.Values) != 1 || vs.Names[0].Name == "_" {
+			return nil
+		}
+		a := &ast.AssignStmt{Lhs: []ast.Expr{vs.Names[0]}, TokPos: vs.Names[0].End(), Tok: token.DEFINE, Rhs: []ast.Expr{vs.Values[0]}}
+		if vs.Names[0].Obj != nil {
+			vs.Names[0].Obj.Decl = a
+		}
+		return a
+	}
+	return nil
+}
+
+func nsSimplify(fd *ast.FuncDecl) {
+	nsApply(fd, nsSimpExpr, func(e ast.Expr) ast.Expr { return nsStrip(e) })
+	nsEachStmt(fd.Body, nsSimpStmt)
+}
+
+// ---- 2. single-assignment pure locals --------------------------------------------------
+
+// nsRoot: the base identifier of an addressable expression (x, x.f, x[i], *x, x[a:b]).
+func nsRoot(e ast.Expr) *ast.Ident {
+	for {
+		switch x := e.(type) {
+		case *ast.Ident:
+			return x
+		case *ast.ParenExpr:
+			e = x.X
+		case *ast.SelectorExpr:
+			e = x.X
+		case *ast.IndexExpr:
+			e = x.X
+		case *ast.SliceExpr:
+			e = x.X
+		case *ast.StarExpr:
+			e = x.X
+		default:
+			return nil
+		}
+	}
+}
+
+// nsWrites: the expressions a statement node writes to (assignment targets, ++/--, a
+// `range` with `=`, operands of `&`).
+func nsWrites(n ast.Node) []ast.Expr {
+	switch x := n.(type) {
+	case *ast.AssignStmt:
+		if x.Tok != token.DEFINE {
+			return x.Lhs
+		}
+		var out []ast.Expr // `a, err := …` re-assigns an existing err
+		for _, l := range x.Lhs {
+			if id, ok := l.(*ast.Ident); ok && id.Obj != nil && id.Obj.Decl != x {
+				out = append(out, l)
+			}
+		}
+		return out
+	case *ast.IncDecStmt:
+		return []ast.Expr{x.X}
+	case *ast.RangeStmt:
+		if x.Tok == token.ASSIGN {
+			var out []ast.Expr
+			if x.Key != nil {
+				out = append(out, x.Key)
+			}
+			if x.Value != nil {
+				out = append(out, x.Value)
+			}
+			return out
+		}
+	case *ast.UnaryExpr:
+		if x.Op == token.AND {
+			return []ast.Expr{x.X}
+		}
+	}
+	return nil
+}
+
+type nsReads struct {
+	objs    map[*ast.Object]bool // locals the expression mentions
+	onlyLen map[*ast.Object]bool // … and only as the argument of len/cap
+	deref   bool                 // reads through a selector / pointer
+}
+
+func nsReadsOf(e ast.Expr) nsReads {
+	r := nsReads{map[*ast.Object]bool{}, map[*ast.Object]bool{}, false}
+	var walk func(e ast.Expr, inLen bool)
+	walk = func(e ast.Expr, inLen bool) {
+		switch x := e.(type) {
+		case *ast.Ident:
+			if x.Obj != nil {
+				if !r.objs[x.Obj] {
+					r.objs[x.Obj] = true
+					r.onlyLen[x.Obj] = inLen
+				} else if !inLen {
+					r.onlyLen[x.Obj] = false
+				}
+			}
+		case *ast.ParenExpr:
+			walk(x.X, inLen)
+		case *ast.SelectorExpr:
+			if id, ok := x.X.(*ast.Ident); !ok || id.Obj != nil {
+				r.deref = true
+			}
+			walk(x.X, false)
+		case *ast.StarExpr:
+			r.deref = true
+			walk(x.X, false)
+		case *ast.BinaryExpr:
+			walk(x.X, false)
+			walk(x.Y, false)
+		case *ast.UnaryExpr:
+			walk(x.X, false)
+		case *ast.CallExpr:
+			_, direct := nsStrip(x.Args[0]).(*ast.Ident)
+			walk(x.Args[0], direct)
+		}
+	}
+	walk(e, false)
+	return r
+}
+
+// nsInlineOne substitutes one inlinable local; false when there is none left.
+func nsInlineOne(fd *ast.FuncDecl) bool {
+	type info struct {
+		def     *ast.AssignStmt
+		defs    int
+		uses    []*ast.Ident
+		blocked bool
+	}
+	infos := map[*ast.Object]*info{}
+	var order []*ast.Object
+	get := func(o *ast.Object) *info {
+		if infos[o] == nil {
+			infos[o] = &info{}
+			order = append(order, o)
+		}
+		return infos[o]
+	}
+	defIdent := map[*ast.Ident]bool{}
+	var lits []*ast.FuncLit
+	ast.Inspect(fd.Body, func(n ast.Node) bool {
+		switch x := n.(type) {
+		case *ast.AssignStmt:
+			if x.Tok == token.DEFINE {
+				for _, l := range x.Lhs {
+					if id, ok := l.(*ast.Ident); ok && id.Obj != nil {
+						in := get(id.Obj)
+						in.defs++
+						defIdent[id] = true
+						if len(x.Lhs) == 1 && len(x.Rhs) == 1 && id.Obj.Decl == x {
+							in.def = x
+						}
+					}
+				}
+			}
+		case *ast.FuncLit:
+			lits = append(lits, x)
+		case *ast.CallExpr: // x.M(): a pointer-receiver method may change x
+			if sel, ok := x.Fun.(*ast.SelectorExpr); ok {
+				if o := nsObj(sel.X); o != nil {
+					get(o).blocked = true
+				}
+			}
+		}
+		for _, w := range nsWrites(n) {
+			if id := nsRoot(w); id != nil && id.Obj != nil {
+				if as, ok := n.(*ast.AssignStmt); ok && as.Tok == token.DEFINE {
+					get(id.Obj).defs++ // re-assignment through `:=`
+				}
+				get(id.Obj).blocked = true
+			}
+		}
+		return true
+	})
+	ast.Inspect(fd.Body, func(n ast.Node) bool {
+		if id, ok := n.(*ast.Ident); ok && id.Obj != nil && !defIdent[id] {
+			get(id.Obj).uses = append(get(id.Obj).uses, id)
+		}
+		return true
+	})
+	var loops []ast.Node
+	ast.Inspect(fd.Body, func(n ast.Node) bool {
+		switch n.(type) {
+		case *ast.ForStmt, *ast.RangeStmt:
+			loops = append(loops, n)
+		}
+		return true
+	})
+	within := func(n ast.Node, p token.Pos) bool { return n.Pos() <= p && p < n.End() }
+
+	for _, o := range order {
+		in := infos[o]
+		if in.def == nil || in.defs != 1 || in.blocked || len(in.uses) == 0 || o.Kind != ast.Var {
+			continue
+		}
+		rhs := in.def.Rhs[0]
+		if !nsPure(rhs) {
+			continue
+		}
+		ok := true
+		lo, hi := in.def.End(), token.Pos(0)
+		for _, u := range in.uses {
+			if u.Pos() > hi {
+				hi = u.Pos()
+			}
+			if u.Pos() < lo {
+				ok = false
+			}
+			for _, l := range lits { // a closure runs later
+				ok = ok && !within(l, u.Pos())
+			}
+		}
+		extended := false
+		for _, u := range in.uses {
+			for _, l := range loops {
+				if within(l, u.Pos()) && !within(l, in.def.Pos()) && l.End() > hi {
+					hi, extended = l.End(), true
+				}
+			}
+		}
+		rd := nsReadsOf(rhs)
+		ast.Inspect(fd.Body, func(n ast.Node) bool {
+			if n == nil || !ok {
+				return false
+			}
+			if n.End() <= lo || n.Pos() >= hi {
+				return n.Pos() < hi // nothing of interest inside / after
+			}
+			if n.Pos() > lo {
+				for _, w := range nsWrites(n) {
+					id := nsRoot(w)
+					_, bare := nsStrip(w).(*ast.Ident)
+					switch {
+					case id != nil && id.Obj != nil && rd.objs[id.Obj] && (bare || !rd.onlyLen[id.Obj]):
+						ok = false
+					case rd.deref && !bare:
+						ok = false
+					}
+				}
+				if c, isCall := n.(*ast.CallExpr); isCall && rd.deref && !nsBuiltinPure(c) {
+					containsUse := false
+					for _, u := range in.uses {
+						containsUse = containsUse || within(c, u.Pos())
+					}
+					if !containsUse || extended {
+						ok = false
+					}
+				}
+			}
+			return true
+		})
+		if !ok {
+			continue
+		}
+		// substitute and drop the definition
+		nsApply(fd, func(e ast.Expr) ast.Expr {
+			if id, isID := e.(*ast.Ident); isID && id.Obj == o && !defIdent[id] {
+				return nsWrap(nsClone(nsStrip(rhs)))
+			}
+			return e
+		}, nil)
+		nsEachList(fd.Body, func(_ ast.Node, list []ast.Stmt) []ast.Stmt {
+			out := list[:0:0]
+			for _, s := range list {
+				if s != ast.Stmt(in.def) {
+					out = append(out, s)
+				}
+			}
+			return out
+		})
+		return true
+	}
+	return false
+}
+
+func nsInlineLocals(fd *ast.FuncDecl) {
+	for i := 0; nsInlineOne(fd); i++ {
+		if i > 1000 {
+			nsFail("%s: inlining does not terminate", fd.Name.Name)
+		}
+	}
+}
+
+// ---- 3b. comparisons and negations -----------------------------------------------------
+
+// nsBin builds `l op r`, parenthesising operands where the precedence requires it.
+func nsBin(op token.Token, l, r ast.Expr) ast.Expr {
+	p := op.Precedence()
+	fix := func(e ast.Expr, right bool) ast.Expr {
+		if b, ok := e.(*ast.BinaryExpr); ok {
+			if q := b.Op.Precedence(); q < p || (q == p && right) {
+				return &ast.ParenExpr{X: e}
+			}
+		}
+		return e
+	}
+	return &ast.BinaryExpr{X: fix(l, false), Op: op, Y: fix(r, true)}
+}
+
+// nsNot: the canonical negation of a (canonical) condition.
+func nsNot(e ast.Expr) ast.Expr {
+	e = nsStrip(e)
+	switch x := e.(type) {
+	case *ast.UnaryExpr:
+		if x.Op == token.NOT {
+			return nsStrip(x.X)
+		}
+	case *ast.BinaryExpr:
+		switch x.Op {
+		case token.EQL:
+			return &ast.BinaryExpr{X: x.X, Op: token.NEQ, Y: x.Y}
+		case token.NEQ:
+			return &ast.BinaryExpr{X: x.X, Op: token.EQL, Y: x.Y}
+		case token.LSS: // !(a < b)  is  b <= a
+			return &ast.BinaryExpr{X: x.Y, Op: token.LEQ, Y: x.X}
+		case token.LEQ: // !(a <= b)  is  b < a
+			return &ast.BinaryExpr{X: x.Y, Op: token.LSS, Y: x.X}
+		case token.GTR:
+			return &ast.BinaryExpr{X: x.X, Op: token.LEQ, Y: x.Y}
+		case token.GEQ:
+			return &ast.BinaryExpr{X: x.X, Op: token.LSS, Y: x.Y}
+		case token.LAND:
+			return nsBin(token.LOR, nsNot(x.X), nsNot(x.Y))
+		case token.LOR:
+			return nsBin(token.LAND, nsNot(x.X), nsNot(x.Y))
+		}
+	}
+	return &ast.UnaryExpr{Op: token.NOT, X: nsWrap(e)}
+}
+
+func nsCanonExpr(e ast.Expr) ast.Expr {
+	switch x := e.(type) {
+	case *ast.UnaryExpr:
+		if x.Op != token.NOT {
+			break
+		}
+		switch in := nsStrip(x.X).(type) {
+		case *ast.BinaryExpr:
+			switch in.Op {
+			case token.EQL, token.NEQ, token.LSS, token.LEQ, token.GTR, token.GEQ, token.LAND, token.LOR:
+				return nsCanonExpr(nsNot(in))
+			}
+		case *ast.UnaryExpr:
+			if in.Op == token.NOT {
+				return nsStrip(in.X)
+			}
+		}
+	case *ast.BinaryExpr:
+		// x == true, x != false  is  x;   x == false, x != true  is  !x
+		if x.Op == token.EQL || x.Op == token.NEQ {
+			for _, side := range [2][2]ast.Expr{{x.X, x.Y}, {x.Y, x.X}} {
+				if id, ok := nsStrip(side[1]).(*ast.Ident); ok && id.Obj == nil && (id.Name == "true" || id.Name == "false") {
+					if (id.Name == "true") == (x.Op == token.EQL) {
+						return nsStrip(side[0])
+					}
+					return nsCanonExpr(nsNot(side[0]))
+				}
+			}
+		}
+		// the order in which a call-free operand and the other one are evaluated is not
+		// observable; two operands with calls are left as written
+		if (x.Op == token.GTR || x.Op == token.GEQ) && (nsCallFree(x.X) || nsCallFree(x.Y)) {
+			x.X, x.Y = x.Y, x.X
+			if x.Op == token.GTR {
+				x.Op = token.LSS
+			} else {
+				x.Op = token.LEQ
+			}
+		}
+	}
+	return e
+}
+
+// ---- 4. early return, guard clauses, if/else orientation -------------------------------
+
+func nsIsCallTo(s ast.Stmt, names ...string) bool {
+	e, ok := s.(*ast.ExprStmt)
+	if !ok {
+		return false
+	}
+	c, ok := e.X.(*ast.CallExpr)
+	if !ok {
+		return false
+	}
+	fn := nsFlat(c.Fun)
+	for _, n := range names {
+		if fn == n {
+			return true
+		}
+	}
+	return false
+}
+
+// nsTerminates: control never falls out of the end of the list.
+func nsTerminates(list []ast.Stmt) bool {
+	for len(list) > 0 {
+		if _, ok := list[len(list)-1].(*ast.EmptyStmt); !ok {
+			break
+		}
+		list = list[:len(list)-1]
+	}
+	if len(list) == 0 {
+		return false
+	}
+	switch x := list[len(list)-1].(type) {
+	case *ast.ReturnStmt:
+		return true
+	case *ast.BranchStmt:
+		return x.Tok == token.BREAK || x.Tok == token.CONTINUE || x.Tok == token.GOTO
+	case *ast.BlockStmt:
+		return nsTerminates(x.List)
+	case *ast.IfStmt:
+		if x.Else == nil || !nsTerminates(x.Body.List) {
+			return false
+		}
+		switch e := x.Else.(type) {
+		case *ast.BlockStmt:
+			return nsTerminates(e.List)
+		case *ast.IfStmt:
+			return nsTerminates([]ast.Stmt{e})
+		}
+	case *ast.ExprStmt:
+		return nsIsCallTo(x, "panic", "os.Exit", "log.Fatal", "log.Fatalf", "log.Panicf")
+	case *ast.SwitchStmt: // a default, every clause terminates, nothing breaks out
+		def, brk := false, false
+		ast.Inspect(x.Body, func(n ast.Node) bool {
+			if b, ok := n.(*ast.BranchStmt); ok && b.Tok == token.BREAK {
+				brk = true
+			}
+			return !brk
+		})
+		for _, c := range x.Body.List {
+			cc := c.(*ast.CaseClause)
+			def = def || cc.List == nil
+			if !nsTerminates(cc.Body) {
+				return false
+			}
+			if len(cc.Body) > 0 {
+				if b, ok := cc.Body[len(cc.Body)-1].(*ast.BranchStmt); ok && b.Tok != token.GOTO {
+					return false // continue / fallthrough do not end the function
+				}
+			}
+		}
+		return def && !brk
+	}
+	return false
+}
+
+// nsDropDead: statements after one that never completes are unreachable (unless labelled).
+func nsDropDead(list []ast.Stmt) ([]ast.Stmt, bool) {
+	for i := 0; i+1 < len(list); i++ {
+		if !nsTerminates(list[:i+1]) {
+			continue
+		}
+		for _, s := range list[i+1:] {
+			if _, lab := s.(*ast.LabeledStmt); lab {
+				return list, false
+			}
+		}
+		return list[:i+1], true
+	}
+	return list, false
+}
+
+// nsUsesInitVars: does n mention a variable declared by init?
+func nsUsesInitVars(init ast.Stmt, n ast.Node) bool {
+	if init == nil {
+		return false
+	}
+	decl := map[*ast.Object]bool{}
+	if a, ok := init.(*ast.AssignStmt); ok && a.Tok == token.DEFINE {
+		for _, l := range a.Lhs {
+			if o := nsObj(l); o != nil {
+				decl[o] = true
+			}
+		}
+	}
+	used := false
+	ast.Inspect(n, func(x ast.Node) bool {
+		if id, ok := x.(*ast.Ident); ok && id.Obj != nil && decl[id.Obj] {
+			used = true
+		}
+		return !used
+	})
+	return used
+}
+
+func nsNegativeCond(c ast.Expr) bool {
+	switch x := nsStrip(c).(type) {
+	case *ast.UnaryExpr:
+		return x.Op == token.NOT
+	case *ast.BinaryExpr:
+		return x.Op == token.NEQ || x.Op == token.LEQ
+	}
+	return false
+}
+
+func nsCanonList(list []ast.Stmt, loopBody bool) []ast.Stmt {
+	for round := 0; ; round++ {
+		if round > 10000 {
+			nsFail("normalisation of if/else does not terminate")
+		}
+		changed := false
+		var out []ast.Stmt
+		for i, s := range list {
+			x, ok := s.(*ast.IfStmt)
+			if !ok {
+				out = append(out, s)
+				continue
+			}
+			if x.Else != nil {
+				eb, elseIsBlock := x.Else.(*ast.BlockStmt)
+				thenT := nsTerminates(x.Body.List)
+				switch {
+				case thenT && !nsUsesInitVars(x.Init, x.Else):
+					// if c { …; return } else { B }   is   if c { …; return }; B
+					rest := []ast.Stmt{x.Else}
+					if elseIsBlock {
+						rest = eb.List
+					}
+					x.Else = nil
+					out = append(append(out, x), rest...)
+					changed = true
+					continue
+				case !thenT && elseIsBlock && nsTerminates(eb.List) && x.Init == nil:
+					// if c { A } else { …; return }   is   if !c { …; return }; A
+					a := x.Body.List
+					x.Cond, x.Body, x.Else = nsCanonExpr(nsNot(x.Cond)), eb, nil
+					out = append(append(out, x), a...)
+					changed = true
+					continue
+				case elseIsBlock && nsNegativeCond(x.Cond):
+					// if !c { A } else { B }   is   if c { B } else { A }
+					x.Cond, x.Body, x.Else = nsCanonExpr(nsNot(x.Cond)), eb, x.Body
+					changed = true
+				}
+			} else if x.Init == nil && i == len(list)-2 && len(nsKeep(x.Body.List)) > 1 && nsTerminates(x.Body.List) &&
+				len(nsKeep(list[i+1:])) == 1 && nsTerminates(list[i+1:]) {
+				// if c { a; b; return x }; return y   is   if !c { return y }; a; b; return x
+				// (both parts end the list: the one-statement part is the guard clause)
+				a := x.Body.List
+				x.Cond, x.Body = nsCanonExpr(nsNot(x.Cond)), &ast.BlockStmt{List: list[i+1:]}
+				out = append(append(out, x), a...)
+				changed = true
+				break
+			} else if loopBody && i == len(list)-1 && x.Init == nil && len(x.Body.List) > 0 && !nsTerminates(x.Body.List) {
+				// for … { …; if c { X } }   is   for … { …; if !c { continue }; X }
+				body := x.Body.List
+				x.Cond = nsCanonExpr(nsNot(x.Cond))
+				x.Body = &ast.BlockStmt{List: []ast.Stmt{&ast.BranchStmt{Tok: token.CONTINUE}}}
+				out = append(append(out, x), body...)
+				changed = true
+				continue
+			}
+			out = append(out, s)
+		}
+		list = out
+		if l, dropped := nsDropDead(list); dropped {
+			list, changed = l, true
+		}
+		if !changed {
+			return list
+		}
+	}
+}
+
+func nsCanonStmts(fd *ast.FuncDecl) {
+	loops := map[ast.Node]bool{}
+	ast.Inspect(fd.Body, func(n ast.Node) bool {
+		switch x := n.(type) {
+		case *ast.ForStmt:
+			loops[x.Body] = true
+		case *ast.RangeStmt:
+			loops[x.Body] = true
+		}
+		return true
+	})
+	nsEachList(fd.Body, func(owner ast.Node, list []ast.Stmt) []ast.Stmt {
+		return nsCanonList(list, loops[owner])
+	})
+}
+
+// ---- 5. range loops --------------------------------------------------------------------
+
+func nsPath(e ast.Expr) bool {
+	switch x := e.(type) {
+	case *ast.Ident:
+		return true
+	case *ast.SelectorExpr:
+		return nsPath(x.X)
+	}
+	return false
+}
+
+// nsChainHas: does the access path of e (x, x.f, x[i], *x …) pass through an expression
+// printed as `text`?
+func nsChainHas(e ast.Expr, text string) bool {
+	for e != nil {
+		if nsFlat(e) == text {
+			return true
+		}
+		switch x := e.(type) {
+		case *ast.ParenExpr:
+			e = x.X
+		case *ast.SelectorExpr:
+			e = x.X
+		case *ast.IndexExpr:
+			e = x.X
+		case *ast.SliceExpr:
+			e = x.X
+		case *ast.StarExpr:
+			e = x.X
+		default:
+			return false
+		}
+	}
+	return false
+}
+
+// nsCanonRange: `for k := range xs { … xs[k] … }` reads the element through the index; when
+// nothing in the body writes to xs or takes an address in it, that is the value form.
+func nsCanonRange(r *ast.RangeStmt) {
+	key, ok := r.Key.(*ast.Ident)
+	if !ok || r.Tok != token.DEFINE || key.Obj == nil || key.Name == "_" || !nsPath(r.X) {
+		return
+	}
+	xs := nsFlat(r.X)
+	isOcc := func(e ast.Expr) bool {
+		ix, ok := e.(*ast.IndexExpr)
+		return ok && nsFlat(ix.X) == xs && nsObj(ix.Index) == key.Obj
+	}
+	occ, safe := 0, true
+	var inLit func(n ast.Node) bool
+	inLit = func(n ast.Node) bool {
+		found := false
+		ast.Inspect(n, func(m ast.Node) bool {
+			if e, ok := m.(ast.Expr); ok && isOcc(e) {
+				found = true
+			}
+			return !found
+		})
+		return found
+	}
+	ast.Inspect(r.Body, func(n ast.Node) bool {
+		if e, ok := n.(ast.Expr); ok && isOcc(e) {
+			occ++
+		}
+		for _, w := range nsWrites(n) {
+			if nsChainHas(w, xs) || nsObj(w) == key.Obj {
+				safe = false
+			}
+		}
+		switch x := n.(type) {
+		case *ast.FuncLit:
+			if inLit(x.Body) {
+				safe = false
+			}
+		case *ast.CallExpr: // xs[k].M() may have a pointer receiver
+			if sel, ok := x.Fun.(*ast.SelectorExpr); ok && nsChainHas(sel.X, xs) {
+				safe = false
+			}
+		}
+		return true
+	})
+	if occ == 0 || !safe {
+		return
+	}
+	val, _ := r.Value.(*ast.Ident)
+	if val == nil || val.Name == "_" || val.Obj == nil {
+		if r.Value != nil && (val == nil || val.Name != "_") {
+			return
+		}
+		val = &ast.Ident{Name: "elem", Obj: &ast.Object{Kind: ast.Var, Name: "elem"}}
+		r.Value = val
+	}
+	rw := &nsRw{f: func(e ast.Expr) ast.Expr {
+		if isOcc(e) {
+			return &ast.Ident{Name: val.Name, Obj: val.Obj}
+		}
+		return e
+	}}
+	rw.stmt(r.Body)
+	used := false
+	ast.Inspect(r.Body, func(n ast.Node) bool {
+		if id, ok := n.(*ast.Ident); ok && id.Obj == key.Obj {
+			used = true
+		}
+		return !used
+	})
+	if !used {
+		r.Key = &ast.Ident{Name: "_"}
+	}
+}
+
+func nsCanonRanges(fd *ast.FuncDecl) {
+	var rs []*ast.RangeStmt
+	ast.Inspect(fd.Body, func(n ast.Node) bool {
+		if r, ok := n.(*ast.RangeStmt); ok {
+			rs = append(rs, r)
+		}
+		return true
+	})
+	for i := len(rs) - 1; i >= 0; i-- {
+		nsCanonRange(rs[i])
+	}
+}
+
+// ---- 6. alpha-renaming -----------------------------------------------------------------
+
+// nsStructKeys: identifiers that are keys of a composite literal which is not visibly a map
+// or array literal (the parser may have resolved such a key to a local of the same name).
+func nsStructKeys(n ast.Node) map[*ast.Ident]bool {
+	skip := map[*ast.Ident]bool{}
+	ast.Inspect(n, func(x ast.Node) bool {
+		if c, ok := x.(*ast.CompositeLit); ok && !nsKeysAreValues(c.Type) {
+			for _, el := range c.Elts {
+				if kv, ok := el.(*ast.KeyValueExpr); ok {
+					if id, ok := kv.Key.(*ast.Ident); ok {
+						skip[id] = true
+					}
+				}
+			}
+		}
+		return true
+	})
+	return skip
+}
+
+func nsAlpha(fd *ast.FuncDecl) {
+	names := map[*ast.Object]string{}
+	fields := func(fl *ast.FieldList, prefix string) {
+		if fl == nil {
+			return
+		}
+		k := 0
+		for _, f := range fl.List {
+			for _, n := range f.Names {
+				if n.Obj != nil && n.Name != "_" {
+					names[n.Obj] = prefix + strconv.Itoa(k)
+				}
+				k++
+			}
+			if len(f.Names) == 0 {
+				k++
+			}
+		}
+	}
+	if fd.Recv != nil {
+		for _, f := range fd.Recv.List {
+			for _, n := range f.Names {
+				if n.Obj != nil && n.Name != "_" {
+					names[n.Obj] = "recv"
+				}
+			}
+		}
+	}
+	fields(fd.Type.Params, "p")
+	fields(fd.Type.Results, "r")
+	skip := nsStructKeys(fd)
+	k := 0
+	ast.Inspect(fd.Body, func(n ast.Node) bool {
+		id, ok := n.(*ast.Ident)
+		if !ok || id.Obj == nil || id.Obj.Kind != ast.Var || id.Name == "_" || skip[id] {
+			return true
+		}
+		if _, done := names[id.Obj]; !done {
+			names[id.Obj] = "v" + strconv.Itoa(k)
+			k++
+		}
+		return true
+	})
+	ast.Inspect(fd, func(n ast.Node) bool {
+		if id, ok := n.(*ast.Ident); ok && id.Obj != nil && !skip[id] {
+			if nn, ok := names[id.Obj]; ok {
+				id.Name = nn
+			}
+		}
+		return true
+	})
+}
+
+// ---- 7. operand order ------------------------------------------------------------------
+
+// nsConstLike: a literal, or a name not defined in the function (nil, true, a package
+// constant, pkg.Name).
+func nsConstLike(e ast.Expr) bool {
+	switch x := nsStrip(e).(type) {
+	case *ast.BasicLit:
+		return true
+	case *ast.Ident:
+		return x.Obj == nil
+	case *ast.UnaryExpr:
+		return (x.Op == token.SUB || x.Op == token.ADD) && nsConstLike(x.X)
+	case *ast.SelectorExpr:
+		id, ok := x.X.(*ast.Ident)
+		return ok && id.Obj == nil
+	}
+	return false
+}
+
+func nsChain(e ast.Expr, op token.Token, out []ast.Expr) []ast.Expr {
+	if b, ok := nsStrip(e).(*ast.BinaryExpr); ok && b.Op == op {
+		return nsChain(b.Y, op, nsChain(b.X, op, out))
+	}
+	return append(out, nsStrip(e))
+}
+
+func nsSortOperands(e ast.Expr) ast.Expr {
+	x, ok := e.(*ast.BinaryExpr)
+	if !ok {
+		return e
+	}
+	switch x.Op {
+	case token.EQL, token.NEQ:
+		if !nsCallFree(x.X) || !nsCallFree(x.Y) {
+			return e
+		}
+		cl, cr := nsConstLike(x.X), nsConstLike(x.Y)
+		if (cl && !cr) || (cl == cr && nsFlat(x.Y) < nsFlat(x.X)) {
+			x.X, x.Y = x.Y, x.X
+		}
+	case token.LOR, token.LAND:
+		// x == K || x == L (x != K && x != L): the tests are independent, order them
+		want := token.EQL
+		if x.Op == token.LAND {
+			want = token.NEQ
+		}
+		ops := nsChain(x, x.Op, nil)
+		for _, o := range ops {
+			b, ok := o.(*ast.BinaryExpr)
+			f, _ := ops[0].(*ast.BinaryExpr)
+			if !ok || b.Op != want || !nsCallFree(b) || !nsConstLike(b.Y) || nsConstLike(b.X) || nsFlat(b.X) != nsFlat(f.X) {
+				return e
+			}
+		}
+		sort.SliceStable(ops, func(i, j int) bool { return nsFlat(ops[i]) < nsFlat(ops[j]) })
+		var acc ast.Expr = ops[0]
+		for _, o := range ops[1:] {
+			acc = &ast.BinaryExpr{X: acc, Op: x.Op, Y: o}
+		}
+		return acc
+	}
+	return e
+}
+
+// ---- printing --------------------------------------------------------------------------
 
 // nsFlat prints a node canonically on one line (go/printer without position information,
 // hence without comments and without the source's own line breaks; whitespace collapsed).
@@ -39,8 +1521,8 @@ func nsFlat(n ast.Node) string {
 	return strings.Join(strings.Fields(exprString(n)), " ")
 }
 
-// nsNoise: s.logger.Printf(...), d.serf.logger.Printf(...), metrics.*(...) statements, and
-// an `if` (no init, no else) whose body is nothing but such statements.
+// nsNoise: <…>.logger.Printf(...), metrics.*(...) statements, and an `if` (no init, no else)
+// whose body is nothing but such statements.
 func nsNoise(s ast.Stmt) bool {
 	switch x := s.(type) {
 	case *ast.ExprStmt:
@@ -86,6 +1568,7 @@ func nsRangeHeader(r *ast.RangeStmt) string {
 	return h + "range " + nsFlat(r.X)
 }
 
+// nsCaseLabel: the labels of one clause, in textual order.
 func nsCaseLabel(c *ast.CaseClause) string {
 	if c.List == nil {
 		return "default"
@@ -94,6 +1577,7 @@ func nsCaseLabel(c *ast.CaseClause) string {
 	for i, e := range c.List {
 		l[i] = nsFlat(e)
 	}
+	sort.Strings(l)
 	return strings.Join(l, ", ")
 }
 
@@ -245,22 +1729,43 @@ func nsReturnsFalseIf(s ast.Stmt) bool {
 
 func nsIsSwitch(s ast.Stmt) bool { _, ok := s.(*ast.SwitchStmt); return ok }
 
-// nsRange finds the only `range` over expression x inside fd.
-func nsRange(fd *ast.FuncDecl, x string) *ast.RangeStmt {
+// nsRange finds the only `range` loop of fd over an expression accepted by `over`.
+func nsRange(fd *ast.FuncDecl, what string, over func(x string) bool) *ast.RangeStmt {
 	var hit *ast.RangeStmt
 	ast.Inspect(fd.Body, func(n ast.Node) bool {
-		if r, ok := n.(*ast.RangeStmt); ok && nsFlat(r.X) == x {
+		if r, ok := n.(*ast.RangeStmt); ok && over(nsFlat(r.X)) {
 			if hit != nil {
-				nsFail("%s: two loops over %s", fd.Name.Name, x)
+				nsFail("%s: two loops over %s", fd.Name.Name, what)
 			}
 			hit = r
 		}
 		return true
 	})
 	if hit == nil {
-		nsFail("%s: no loop over %s", fd.Name.Name, x)
+		nsFail("%s: no loop over %s", fd.Name.Name, what)
 	}
 	return hit
+}
+
+// nsTopIndex: index of the top-level statement of fd that contains n.
+func nsTopIndex(fd *ast.FuncDecl, n ast.Node) int {
+	for i, s := range fd.Body.List {
+		found := false
+		ast.Inspect(s, func(x ast.Node) bool {
+			found = found || x == n
+			return !found
+		})
+		if found {
+			return i
+		}
+	}
+	nsFail("%s: statement not found at top level", fd.Name.Name)
+	return -1
+}
+
+func nsIs(t string) func(string) bool { return func(x string) bool { return x == t } }
+func nsSuffix(t string) func(string) bool {
+	return func(x string) bool { return strings.HasSuffix(x, t) }
 }
 
 func nsLoop(r *ast.RangeStmt) []string {
@@ -274,6 +1779,38 @@ func nsSingleAssign(r *ast.RangeStmt) bool {
 	}
 	a, ok := r.Body.List[0].(*ast.AssignStmt)
 	return ok && a.Tok == token.ASSIGN && len(a.Lhs) == 1
+}
+
+// nsDefineFrom: index in list of the only `a[, b] := <rhs accepted by p>`, and the names
+// defined (structure, not spelling, identifies a variable: "the one assigned from s.State()").
+func nsDefineFrom(where string, list []ast.Stmt, p func(rhs ast.Expr) bool) (int, []string) {
+	i := nsMust(where, nsIndex(where, list, func(s ast.Stmt) bool {
+		a, ok := s.(*ast.AssignStmt)
+		return ok && a.Tok == token.DEFINE && len(a.Rhs) == 1 && p(a.Rhs[0])
+	}))
+	var names []string
+	for _, l := range list[i].(*ast.AssignStmt).Lhs {
+		names = append(names, nsFlat(l))
+	}
+	return i, names
+}
+
+// nsParamTypes: the parameter types must be exactly `want` (parameters are p0, p1, … after
+// normalisation, so "the parameter of type *messageLeave" is identified by position and type).
+func nsParamTypes(fd *ast.FuncDecl, want ...string) {
+	var got []string
+	for _, f := range fd.Type.Params.List {
+		n := len(f.Names)
+		if n == 0 {
+			n = 1
+		}
+		for ; n > 0; n-- {
+			got = append(got, nsFlat(f.Type))
+		}
+	}
+	if strings.Join(got, ", ") != strings.Join(want, ", ") {
+		nsFail("%s: parameters (%s), expected (%s)", fd.Name.Name, strings.Join(got, ", "), strings.Join(want, ", "))
+	}
 }
 
 // ---- Lean output -----------------------------------------------------------------------
@@ -312,11 +1849,12 @@ func (o *nsOut) list(name, doc string, v []string) {
 }
 func (o *nsOut) section(s string) { fmt.Fprintf(&o.b, "\n/-! ## %s -/\n", s) }
 
-// ---- the walkers -----------------------------------------------------------------------
+// ---- the walkers (all on NORMALISED functions: recv, p0…, v0…) -------------------------
 
 func nsReap(o *nsOut, f *ast.File) {
 	o.section("serf.go reap / handleReap")
 	fd := nsFn(f, "Serf", "reap")
+	nsParamTypes(fd, "[]*memberState", "time.Time", "time.Duration")
 	body := fd.Body.List
 	fi := nsMust("reap: for loop", nsIndex("reap: for loop", body, func(s ast.Stmt) bool { _, ok := s.(*ast.ForStmt); return ok }))
 	loop := body[fi].(*ast.ForStmt)
@@ -350,19 +1888,51 @@ func nsReap(o *nsOut, f *ast.File) {
 	del := nsKeep(lb[gi+1:])
 	o.list("reapDeleteStmts", "loop body after the keep guard (the delete branch)", nsStmts(del))
 
-	shrink := nsFirst(del, func(s ast.Stmt) bool { // old = old[:…]
+	slice := ""
+	shrink := nsFirst(del, func(s ast.Stmt) bool { // S = S[:…]
 		a, ok := s.(*ast.AssignStmt)
 		if !ok || a.Tok != token.ASSIGN || len(a.Lhs) != 1 || len(a.Rhs) != 1 {
 			return false
 		}
 		sl, ok := a.Rhs[0].(*ast.SliceExpr)
-		return ok && sl.Low == nil && sl.High != nil && nsFlat(sl.X) == nsFlat(a.Lhs[0])
+		if ok && sl.Low == nil && sl.High != nil && nsFlat(sl.X) == nsFlat(a.Lhs[0]) {
+			slice = nsFlat(a.Lhs[0])
+			return true
+		}
+		return false
 	})
-	dec := nsFirst(del, func(s ast.Stmt) bool {
-		d, ok := s.(*ast.IncDecStmt)
-		return ok && d.Tok == token.DEC && nsFlat(d.X) == iv
-	})
-	o.boolean("reapRechecksSlot", "`"+iv+"--` follows the shrink `old = old[:…]` in the delete branch: the element swapped into the freed slot is examined too", shrink >= 0 && dec > shrink)
+	decOf := func(v string) func(ast.Stmt) bool {
+		return func(s ast.Stmt) bool {
+			d, ok := s.(*ast.IncDecStmt)
+			return ok && d.Tok == token.DEC && nsFlat(d.X) == v
+		}
+	}
+	dec := nsFirst(del, decOf(iv))
+	o.boolean("reapRechecksSlot", "the loop variable is decremented after the shrink `S = S[:…]` in the delete branch: the element swapped into the freed slot is examined too", shrink >= 0 && dec > shrink)
+
+	// the bound follows the shrinking slice: either `i < len(S)`, or `i < N` with `N := len(S)`
+	// before the loop and one `N--` after the shrink
+	tracks := false
+	if c, ok := loop.Cond.(*ast.BinaryExpr); ok && c.Op == token.LSS && nsFlat(c.X) == iv && shrink >= 0 {
+		switch y := c.Y.(type) {
+		case *ast.CallExpr:
+			tracks = nsFlat(y) == "len("+slice+")"
+		case *ast.Ident:
+			def := nsFirst(body[:fi], func(s ast.Stmt) bool { return nsStmt(s) == y.Name+" := len("+slice+")" })
+			nd := nsIndex("reap: decrement of the bound", del, decOf(y.Name))
+			writes := 0
+			ast.Inspect(loop, func(n ast.Node) bool {
+				for _, w := range nsWrites(n) {
+					if nsFlat(w) == y.Name {
+						writes++
+					}
+				}
+				return true
+			})
+			tracks = def >= 0 && nd > shrink && writes == 1
+		}
+	}
+	o.boolean("reapBoundTracksShrink", "the loop bound follows the shrinking slice (a counter `N := len(S)` decremented once after the shrink, or `len(S)` itself)", tracks)
 
 	override := false
 	for _, s := range lb[:gi] {
@@ -378,7 +1948,7 @@ func nsReap(o *nsOut, f *ast.File) {
 			}
 		}
 	}
-	o.boolean("reapOverrideApplied", "the `ReconnectTimeoutOverride != nil` block assigns the guard's right operand from `…ReconnectTimeout(&m.Member, <it>)`", override)
+	o.boolean("reapOverrideApplied", "the `ReconnectTimeoutOverride != nil` block assigns the guard's right operand from `…ReconnectTimeout(&<element>.Member, <it>)`", override)
 
 	hr := nsFn(f, "Serf", "handleReap")
 	var calls []string
@@ -401,30 +1971,31 @@ func nsReap(o *nsOut, f *ast.File) {
 func nsLeaveIntent(o *nsOut, f *ast.File) {
 	o.section("serf.go handleNodeLeaveIntent / handlePrune")
 	fd := nsFn(f, "Serf", "handleNodeLeaveIntent")
-	if len(fd.Type.Params.List) != 1 || len(fd.Type.Params.List[0].Names) != 1 {
-		nsFail("handleNodeLeaveIntent: unexpected parameters")
-	}
-	p := fd.Type.Params.List[0].Names[0].Name
+	nsParamTypes(fd, "*messageLeave") // the message is p0
 	top := nsKeep(fd.Body.List)
 	is := func(text string) func(ast.Stmt) bool { return func(s ast.Stmt) bool { return nsStmt(s) == text } }
 
-	st := nsMust("handleNodeLeaveIntent: state := s.State()", nsIndex("state", top, is("state := s.State()")))
+	// the variable assigned from recv.State(), the one looked up in recv.members
+	st, _ := nsDefineFrom("handleNodeLeaveIntent: `<state> := s.State()`", top, func(e ast.Expr) bool { return nsFlat(e) == "recv.State()" })
+	_, mem := nsDefineFrom("handleNodeLeaveIntent: `<member>, ok := s.members[…]`", top, func(e ast.Expr) bool { return nsFlat(e) == "recv.members[p0.Node]" })
+	member := mem[0]
 	stale := nsMust("handleNodeLeaveIntent: `if … { return false }`", nsFirst(top, nsReturnsFalseIf))
+	isGo := func(t ast.Stmt) bool { _, ok := t.(*ast.GoStmt); return ok }
 	refute := nsMust("handleNodeLeaveIntent: refutation branch", nsIndex("refute", top, func(s ast.Stmt) bool {
 		x, ok := s.(*ast.IfStmt)
-		return ok && nsFirst(x.Body.List, func(t ast.Stmt) bool { _, ok := t.(*ast.GoStmt); return ok }) >= 0
+		return ok && nsFirst(x.Body.List, isGo) >= 0
 	}))
 	rb := top[refute].(*ast.IfStmt)
 	sw := nsMust("handleNodeLeaveIntent: switch", nsIndex("switch", top, nsIsSwitch))
-	set := nsIndex("statusLTime assignment", top, is("member.statusLTime = "+p+".LTime"))
+	set := nsIndex("statusLTime assignment", top, is(member+".statusLTime = p0.LTime"))
 
 	o.str("leaveStaleGuard", "guard of the first top-level `if … { return false }`", nsFlat(top[stale].(*ast.IfStmt).Cond))
 	o.str("leaveRefuteGuard", "guard of the branch that starts a goroutine", nsFlat(rb.Cond))
-	o.str("leaveRefuteCall", "the `go` statement of that branch", nsStmt(rb.Body.List[nsFirst(rb.Body.List, func(t ast.Stmt) bool { _, ok := t.(*ast.GoStmt); return ok })]))
+	o.str("leaveRefuteCall", "the `go` statement of that branch", nsStmt(rb.Body.List[nsFirst(rb.Body.List, isGo)]))
 	o.list("leaveRefuteStmts", "the whole refutation branch", nsStmts(rb.Body.List))
-	o.boolean("leaveWitnessFirst", "the statement right after `state := s.State()` is `s.clock.Witness("+p+".LTime)`",
-		st == 0 && len(top) > 1 && nsStmt(top[1]) == "s.clock.Witness("+p+".LTime)")
-	o.boolean("leaveSetsTimeBeforeSwitch", "`member.statusLTime = "+p+".LTime` is a top-level statement before the `switch`", set >= 0 && set < sw)
+	o.boolean("leaveWitnessFirst", "the function starts with `<state> := recv.State()` and the next statement is `recv.clock.Witness(p0.LTime)`",
+		st == 0 && len(top) > 1 && nsStmt(top[1]) == "recv.clock.Witness(p0.LTime)")
+	o.boolean("leaveSetsTimeBeforeSwitch", "`<member>.statusLTime = p0.LTime` is a top-level statement before the `switch`", set >= 0 && set < sw)
 	o.boolean("leaveGuardsBeforeSetTime", "stale guard, then refutation, then the statusLTime assignment", set >= 0 && stale < refute && refute < set)
 
 	swst := top[sw].(*ast.SwitchStmt)
@@ -450,37 +2021,179 @@ func nsLeaveIntent(o *nsOut, f *ast.File) {
 		return -1
 	}
 	fc := c["StatusFailed"]
-	rm, ap, pr := at(fc, "s.failedMembers = removeOldMember(s.failedMembers, "), at(fc, "s.leftMembers = append(s.leftMembers, "), at(fc, "if "+p+".Prune { s.handlePrune(")
-	o.boolean("leavePruneAfterListUpdate", "case StatusFailed: `s.failedMembers = removeOldMember(s.failedMembers, …)` and `s.leftMembers = append(s.leftMembers, …)` both precede `if "+p+".Prune { s.handlePrune(…`",
+	rm, ap, pr := at(fc, "recv.failedMembers = removeOldMember(recv.failedMembers, "), at(fc, "recv.leftMembers = append(recv.leftMembers, "), at(fc, "if p0.Prune { recv.handlePrune(")
+	o.boolean("leavePruneAfterListUpdate", "case StatusFailed: `recv.failedMembers = removeOldMember(recv.failedMembers, …)` and `recv.leftMembers = append(recv.leftMembers, …)` both precede `if p0.Prune { recv.handlePrune(…`",
 		rm >= 0 && ap >= 0 && pr > rm && pr > ap)
 	o.list("leaveCaseLeavingLeft", "case StatusLeaving, StatusLeft", c["StatusLeaving, StatusLeft"])
 	o.list("leaveCaseDefault", "default", c["default"])
 
-	o.list("handlePruneStmts", "body of `handlePrune`", nsStmts(nsFn(f, "Serf", "handlePrune").Body.List))
+	hp := nsFn(f, "Serf", "handlePrune")
+	nsParamTypes(hp, "*memberState")
+	o.list("handlePruneStmts", "body of `handlePrune`", nsStmts(hp.Body.List))
+}
+
+// nsRemoveOld: removeOldMember as a SEMANTIC summary.  Two spellings are understood:
+//
+//	for i, m := range S { if PRED(m) { REMOVE(i); return … } }; return S
+//	i := slices.IndexFunc(S, func(m T) bool { return PRED(m) }); if i < 0 { return S }; REMOVE(i); return …
+//
+// (the second also as `if i >= 0 { REMOVE(i); return … }; return S`).  The index is printed as
+// `idx`, the element as `elem`.
+func nsRemoveOld(o *nsOut, fd *ast.FuncDecl) {
+	nsParamTypes(fd, "[]*memberState", "string")
+	body := nsKeep(fd.Body.List)
+	bad := func(why string) {
+		nsFail("removeOldMember: shape not understood (%s): %s", why, strings.Join(nsStmts(body), "; "))
+	}
+	var over, pred ast.Expr
+	var idx, elem *ast.Object
+	var onMatch []ast.Stmt
+	var noMatch ast.Stmt
+	first := false
+	oneReturn := func(l []ast.Stmt) ast.Stmt {
+		l = nsKeep(l)
+		if len(l) != 1 {
+			return nil
+		}
+		if _, ok := l[0].(*ast.ReturnStmt); !ok {
+			return nil
+		}
+		return l[0]
+	}
+	if len(body) == 0 {
+		bad("empty")
+	}
+	switch x := body[0].(type) {
+	case *ast.RangeStmt:
+		if len(body) != 2 || x.Tok != token.DEFINE {
+			bad("loop is not followed by exactly one statement")
+		}
+		idx, elem = nsObj(x.Key), nsObj(x.Value)
+		lb := nsKeep(x.Body.List)
+		if t, ok := func() (*ast.IfStmt, bool) {
+			if len(lb) != 1 {
+				return nil, false
+			}
+			t, ok := lb[0].(*ast.IfStmt)
+			return t, ok
+		}(); ok && idx != nil && elem == nil && (x.Value == nil || nsFlat(x.Value) == "_") {
+			// `for i := range S { if PRED(S[i]) {…} }`: the test reads S[i] before anything is
+			// written in that iteration (and an iteration that writes returns): S[i] is the element
+			elem = &ast.Object{Kind: ast.Var, Name: "elem"}
+			s := nsFlat(x.X)
+			rw := &nsRw{f: func(e ast.Expr) ast.Expr {
+				if ix, ok := e.(*ast.IndexExpr); ok && nsFlat(ix.X) == s && nsObj(ix.Index) == idx {
+					return &ast.Ident{Name: "elem", Obj: elem}
+				}
+				return e
+			}}
+			t.Cond = rw.t(t.Cond)
+		}
+		if idx == nil || elem == nil || len(lb) != 1 {
+			bad("loop does not bind index and element, or its body is not a single `if`")
+		}
+		t, ok := lb[0].(*ast.IfStmt)
+		if !ok || t.Init != nil || t.Else != nil {
+			bad("loop body is not a plain `if`")
+		}
+		over, pred, onMatch = x.X, t.Cond, nsKeep(t.Body.List)
+		// ascending `range` + `return` inside the branch: the FIRST match is the one removed
+		_, first = onMatch[len(onMatch)-1].(*ast.ReturnStmt)
+		if noMatch = oneReturn(body[1:]); noMatch == nil {
+			bad("no single return after the loop")
+		}
+	case *ast.AssignStmt:
+		if x.Tok != token.DEFINE || len(x.Lhs) != 1 || len(x.Rhs) != 1 {
+			bad("first statement")
+		}
+		c, ok := x.Rhs[0].(*ast.CallExpr)
+		if !ok || nsFlat(c.Fun) != "slices.IndexFunc" || len(c.Args) != 2 {
+			bad("not slices.IndexFunc")
+		}
+		fl, ok := c.Args[1].(*ast.FuncLit)
+		if !ok || len(fl.Type.Params.List) != 1 || len(fl.Type.Params.List[0].Names) != 1 {
+			bad("predicate is not a one-parameter function literal")
+		}
+		ret, _ := oneReturn(fl.Body.List).(*ast.ReturnStmt)
+		if ret == nil || len(ret.Results) != 1 {
+			bad("predicate body is not a single return")
+		}
+		idx, elem = nsObj(x.Lhs[0]), fl.Type.Params.List[0].Names[0].Obj
+		over, pred, first = c.Args[0], ret.Results[0], true // slices.IndexFunc: the first index satisfying the predicate
+		rest := body[1:]
+		if idx == nil || elem == nil || len(rest) < 2 {
+			bad("nothing after the search")
+		}
+		t, ok := rest[0].(*ast.IfStmt)
+		if !ok || t.Init != nil || t.Else != nil {
+			bad("search is not followed by a plain `if`")
+		}
+		i := nsFlat(x.Lhs[0])
+		switch nsFlat(t.Cond) {
+		case i + " < 0", i + " == -1", i + " <= -1":
+			noMatch, onMatch = oneReturn(t.Body.List), rest[1:]
+		case "0 <= " + i, i + " != -1", "-1 < " + i:
+			onMatch = nsKeep(t.Body.List)
+			noMatch = oneReturn(rest[1:])
+		default:
+			bad("test of the index")
+		}
+		if noMatch == nil || len(onMatch) == 0 {
+			bad("no-match branch is not a single return")
+		}
+		if _, ok := onMatch[len(onMatch)-1].(*ast.ReturnStmt); !ok {
+			bad("removal does not end in a return")
+		}
+	default:
+		bad("first statement")
+	}
+	ast.Inspect(fd, func(n ast.Node) bool {
+		if id, ok := n.(*ast.Ident); ok && id.Obj != nil {
+			switch id.Obj {
+			case idx:
+				id.Name = "idx"
+			case elem:
+				id.Name = "elem"
+			}
+		}
+		return true
+	})
+	nsApply(fd, nsSortOperands, nil) // the operand order must not depend on what idx / elem were called
+	o.str("removeOldSearchOver", "removeOldMember: the slice that is searched", nsFlat(over))
+	o.str("removeOldSearchPred", "the predicate on an element `elem`", nsFlat(pred))
+	o.boolean("removeOldSearchFirst", "the search stops at the FIRST element (ascending index) satisfying the predicate", first)
+	o.list("removeOldOnMatch", "what happens with the index `idx` of that element (single-assignment locals inlined)", nsStmts(onMatch))
+	o.str("removeOldNoMatch", "what happens when no element satisfies the predicate", nsStmt(noMatch))
 }
 
 func nsJoinLeave(o *nsOut, f *ast.File) {
 	o.section("serf.go handleNodeJoin / handleNodeLeave / removeOldMember / upsertIntent / handleNodeJoinIntent")
 	fd := nsFn(f, "Serf", "handleNodeJoin")
+	nsParamTypes(fd, "*memberlist.Node")
 	top := nsKeep(fd.Body.List)
-	br := nsMust("handleNodeJoin: `if !ok { … } else { … }`", nsIndex("!ok", top, func(s ast.Stmt) bool {
+	_, look := nsDefineFrom("handleNodeJoin: `<member>, <ok> := s.members[…]`", top, func(e ast.Expr) bool { return nsFlat(e) == "recv.members[p0.Name]" })
+	if len(look) != 2 {
+		nsFail("handleNodeJoin: the member look-up does not define two variables")
+	}
+	// canonical orientation: `if <ok> { known } else { first seen }`
+	br := nsMust("handleNodeJoin: `if <ok> { … } else { … }`", nsIndex("ok", top, func(s ast.Stmt) bool {
 		x, ok := s.(*ast.IfStmt)
-		return ok && nsFlat(x.Cond) == "!ok"
+		return ok && x.Init == nil && nsFlat(x.Cond) == look[1]
 	}))
 	ifok := top[br].(*ast.IfStmt)
-	els, ok := ifok.Else.(*ast.BlockStmt)
+	fresh, ok := ifok.Else.(*ast.BlockStmt)
 	if !ok {
-		nsFail("handleNodeJoin: `if !ok` has no plain else block")
+		nsFail("handleNodeJoin: the test of the look-up has no plain else block")
 	}
 	var lookups []string
-	for _, s := range nsKeep(ifok.Body.List) {
+	for _, s := range nsKeep(fresh.List) {
 		if x, ok := s.(*ast.IfStmt); ok && x.Init != nil && nsCalls(x.Init, "recentIntent") {
 			lookups = append(lookups, nsStmt(x))
 		}
 	}
 	cl := nsMust("handleNodeJoin: list clean-up", nsIndex("clean-up", top, func(s ast.Stmt) bool { return nsCalls(s, "removeOldMember") }))
 	if cl < br {
-		nsFail("handleNodeJoin: list clean-up precedes the `if !ok` branch")
+		nsFail("handleNodeJoin: list clean-up precedes the known / first-seen branch")
 	}
 	switch x := top[cl].(type) {
 	case *ast.IfStmt:
@@ -496,9 +2209,10 @@ func nsJoinLeave(o *nsOut, f *ast.File) {
 		nsFail("handleNodeJoin: clean-up is neither `if` nor `switch`")
 	}
 	o.list("joinIntentLookups", "the recentIntent look-ups for a member seen for the first time", lookups)
-	o.list("joinKnownStmts", "the else branch (member already known)", nsStmts(els.List))
+	o.list("joinKnownStmts", "the branch for a member already known", nsStmts(ifok.Body.List))
 
 	fd = nsFn(f, "Serf", "handleNodeLeave")
+	nsParamTypes(fd, "*memberlist.Node")
 	top = nsKeep(fd.Body.List)
 	sw := nsMust("handleNodeLeave: switch", nsIndex("switch", top, nsIsSwitch))
 	c := nsCases("handleNodeLeave", top[sw].(*ast.SwitchStmt), "StatusLeaving", "StatusAlive", "default")
@@ -507,9 +2221,10 @@ func nsJoinLeave(o *nsOut, f *ast.File) {
 	o.list("nodeLeaveCaseAlive", "handleNodeLeave, case StatusAlive", c["StatusAlive"])
 	o.list("nodeLeaveCaseDefault", "handleNodeLeave, default", c["default"])
 
-	o.list("removeOldMemberStmts", "body of `removeOldMember`", nsStmts(nsFn(f, "", "removeOldMember").Body.List))
+	nsRemoveOld(o, nsFn(f, "", "removeOldMember"))
 
 	fd = nsFn(f, "", "upsertIntent")
+	nsParamTypes(fd, "map[string]nodeIntent", "string", "messageType", "LamportTime", "func() time.Time")
 	top = nsKeep(fd.Body.List)
 	g, ok := top[0].(*ast.IfStmt)
 	if !ok || g.Else != nil {
@@ -524,6 +2239,7 @@ func nsJoinLeave(o *nsOut, f *ast.File) {
 	o.list("upsertIntentRest", "statements after it", nsStmts(top[1:]))
 
 	fd = nsFn(f, "Serf", "handleNodeJoinIntent")
+	nsParamTypes(fd, "*messageJoin")
 	top = nsKeep(fd.Body.List)
 	stale := nsMust("handleNodeJoinIntent: `if … { return false }`", nsFirst(top, nsReturnsFalseIf))
 	o.str("joinIntentStaleGuard", "guard of the first top-level `if … { return false }` of handleNodeJoinIntent", nsFlat(top[stale].(*ast.IfStmt).Cond))
@@ -533,15 +2249,15 @@ func nsJoinLeave(o *nsOut, f *ast.File) {
 func nsDelegate(o *nsOut, f *ast.File) {
 	o.section("delegate.go LocalState / MergeRemoteState / NotifyMsg")
 	fd := nsFn(f, "delegate", "LocalState")
-	r := nsRange(fd, "d.serf.members")
+	r := nsRange(fd, "recv.serf.members", nsIs("recv.serf.members"))
 	o.list("localStateStatusLoop", "LocalState: loop over the member map (header, body)", nsLoop(r))
 	o.boolean("localStateStatusLoopUnconditional", "its body is a single assignment: every member is reported", nsSingleAssign(r))
-	r = nsRange(fd, "d.serf.leftMembers")
+	r = nsRange(fd, "recv.serf.leftMembers", nsIs("recv.serf.leftMembers"))
 	o.list("localStateLeftLoop", "LocalState: loop over the left list (header, body)", nsLoop(r))
 	o.boolean("localStateLeftLoopUnconditional", "its body is a single assignment: every left entry is reported", nsSingleAssign(r))
 
 	fd = nsFn(f, "delegate", "MergeRemoteState")
-	left, join := nsRange(fd, "pp.LeftMembers"), nsRange(fd, "pp.StatusLTimes")
+	left, join := nsRange(fd, "<pp>.LeftMembers", nsSuffix(".LeftMembers")), nsRange(fd, "<pp>.StatusLTimes", nsSuffix(".StatusLTimes"))
 	ti := nsMust("MergeRemoteState: leave time assignment", nsIndex("leave time", left.Body.List, func(s ast.Stmt) bool {
 		a, ok := s.(*ast.AssignStmt)
 		return ok && len(a.Lhs) == 1 && len(a.Rhs) == 1 && strings.HasSuffix(nsFlat(a.Lhs[0]), ".LTime")
@@ -560,10 +2276,11 @@ func nsDelegate(o *nsOut, f *ast.File) {
 		nsFail("MergeRemoteState: leave time %s has an unsupported shape", nsFlat(te))
 	}
 	o.str("mergeLeaveTimeExpr", "Lamport time given to the artificial leave message", nsFlat(te))
-	o.nat("mergeLeaveOffset", "the integer literal added to the status time (0 if none)", off)
-	o.list("mergeLeftLoopStmts", "loop over pp.LeftMembers (header, body)", nsLoop(left))
-	o.list("mergeJoinLoopStmts", "loop over pp.StatusLTimes (header, body)", nsLoop(join))
-	o.boolean("mergeLeftsBeforeJoins", "the left loop precedes the status loop", left.Pos() < join.Pos())
+	o.nat("mergeLeaveOffset", "the integer added to the status time (constants resolved; 0 if none)", off)
+	o.list("mergeLeftLoopStmts", "loop over <pp>.LeftMembers (header, body)", nsLoop(left))
+	o.list("mergeJoinLoopStmts", "loop over <pp>.StatusLTimes (header, body)", nsLoop(join))
+	li, ji := nsTopIndex(fd, left), nsTopIndex(fd, join)
+	o.boolean("mergeLeftsBeforeJoins", "the left loop precedes the status loop", li < ji)
 	discarded := func(r *ast.RangeStmt, h string) bool {
 		i := nsMust("MergeRemoteState: call of "+h, nsIndex(h, r.Body.List, func(s ast.Stmt) bool { return nsCalls(s, h) }))
 		e, ok := r.Body.List[i].(*ast.ExprStmt)
@@ -577,10 +2294,10 @@ func nsDelegate(o *nsOut, f *ast.File) {
 		discarded(left, "handleNodeLeaveIntent") && discarded(join, "handleNodeJoinIntent"))
 	var wit []string
 	witFirst := true
-	for _, s := range fd.Body.List {
+	for i, s := range fd.Body.List {
 		if nsCalls(s, "Witness") {
 			wit = append(wit, nsStmt(s))
-			witFirst = witFirst && s.End() < left.Pos()
+			witFirst = witFirst && i < li
 		}
 	}
 	o.list("mergeWitnessStmts", "top-level statements that witness a clock", wit)
@@ -646,9 +2363,13 @@ func genNodeShapes(repo string) (src string, err error) {
 	if err != nil {
 		return "", err
 	}
+	nsLoadConsts(repo + "/serf")
 	o := &nsOut{}
 	o.b.WriteString("-- GENERATED by /verif/extract (nodeshapes.go) from serf/serf.go and serf/delegate.go — do not edit.\n")
-	o.b.WriteString("-- Statements are printed canonically on one line; s.logger.Printf / metrics.* statements are dropped.\n")
+	o.b.WriteString("-- Every function is NORMALISED first: receiver `recv`, parameters `p0,p1,…`, other variables `v0,v1,…` in order of\n")
+	o.b.WriteString("-- definition; literal constants resolved; single-assignment pure locals inlined; `a > b` written `b < a`; no else after\n")
+	o.b.WriteString("-- a returning branch; `xs[i]` of a range loop written as the loop's value variable.  Statements are printed on one\n")
+	o.b.WriteString("-- line; <…>.logger.Printf / metrics.* statements are dropped.\n")
 	o.b.WriteString("namespace SerfModel.Gen.NodeShapes\n")
 	nsReap(o, sf)
 	nsLeaveIntent(o, sf)
